@@ -256,7 +256,7 @@ def r3_index(rep, ctx):
                     if inner[0] == "call" and inner[1] == ("field", "GetValues"):
                         u = dict(inner[3]).get("unit") or (inner[2][0] if inner[2] else None)
                         # u must be <the same quantity>.GetUnit()
-                        if u is not None and u[0] == "call" and u[1][0] == "attr" and u[1][2] == "GetUnit" and u[1][1] == q:
+                        if u is not None and ((u[0] == "call" and u[1][0] == "attr" and u[1][2] == "GetUnit" and u[1][1] == q) or (u[0] == "attr" and u[2] == "unit" and u[1] == q)):
                             ok = True
     rep.check(ok, "C11.R3", "IndexAsScalar:unit-of-quantity", "the element is taken in the unit of the quantity the Scalar is built with", "IndexAsScalar builds a Scalar whose value is not expressed in its quantity's unit", fn=ia)
 
